@@ -1483,6 +1483,18 @@ class NumpyModel(object):
             return f
         for nm in ('log10', 'log', 'exp', 'sqrt', 'cos', 'sin', 'ceil', 'floor', 'log2', 'abs'):
             T['numpy.' + nm] = Builtin('np.' + nm, uf(nm))
+
+        @reg('sign')
+        def _sign(I_, a, k):
+            x = I.force(a[0])
+            if isinstance(x, NDArr):
+                f = x.fn
+                dt = x.dtype
+                return self.finish(x.shape, dt if dt in ('int', 'float') else 'int',
+                                   lambda *idx: z3.If(f(*idx) > 0, 1, z3.If(f(*idx) < 0, -1, 0)) if dt != 'float' else
+                                   z3.If(f(*idx) > 0, z3.RealVal(1), z3.If(f(*idx) < 0, z3.RealVal(-1), z3.RealVal(0))), [x])
+            e = I.z(x, 'real')
+            return SV(z3.If(e > 0, z3.RealVal(1), z3.If(e < 0, z3.RealVal(-1), z3.RealVal(0))), 'real', True)
         T['numpy.absolute'] = T['numpy.abs']
 
         @reg('dot')
